@@ -7,7 +7,7 @@ from ..ev import PyRaise
 from ..interp import Interp, make_callable, FuncVal
 from ..src import Unknown
 from .common import C, levels, micro_versions, modes, table_ob, need, single
-from .models import BufModel, SegModel, SegmentsModel, encoder_env, method
+from .models import SAModel, BufModel, SegModel, SegmentsModel, encoder_env, method
 
 explain('C04', '''Decided (structural): SYMBOL_CAPACITY equals 8*sum(data codewords) (-4 for M1/M3) for all 168
 cells and has exactly the level keys each version defines; mode availability and count-indicator widths match ISO
@@ -278,9 +278,7 @@ def sized_equals_written(fx):
     sa_if = [s for s in enc.body if isinstance(s, ast.If) and nf.same_inlined(enc, s.test, 'sa_info is not None')]
     sa_block = single(sa_if, '`if sa_mode:` block in _encode').body
 
-    class SA(tuple):
-        _model = ('parity',)
-        parity = property(lambda s: s[3])
+    SA = SAModel
     # caller convention of _encode: ver / ver_range
     seglists = [
         [('numeric', None)], [('alphanumeric', None)], [('byte', default_enc)], [('byte', 'utf-8')], [('kanji', None)],
